@@ -862,18 +862,18 @@ Lemma flags_ev_c20 c g p b e k : c20_code k -> In k (flags_ev c g p b e) ->
   k = 201 /\ qcode p = QERROR /\ dry c = false /\ is_submit_or_gen e = true.
 Proof.
   intros Hk H. destruct e as [js|js|x|x kd sched res]; cbn [flags_ev] in H.
-  - exfalso. in_cks H; destruct Hk as [->|[->|->]]; discriminate.
-  - exfalso. in_cks H; destruct Hk as [->|[->|->]]; discriminate.
+  - exfalso. in_cks H; destruct Hk as [-> | [-> | ->]]; discriminate.
+  - exfalso. in_cks H; destruct Hk as [-> | [-> | ->]]; discriminate.
   - apply In_ck in H. destruct H as [-> H]. splits; auto.
     + destruct (qcode p); cbn in H; try discriminate; reflexivity.
     + destruct (dry c); [|reflexivity]. rewrite orb_true_r in H. discriminate.
-  - assert (T : In k (ck (negb (qcode_eqb (qcode p) QERROR) || dry c) 201) ->
-                k = 201 /\ qcode p = QERROR /\ dry c = false /\ true = true).
-    { intros H'. apply In_ck in H'. destruct H' as [-> H']. splits; auto.
-      - destruct (qcode p); cbn in H'; try discriminate; reflexivity.
-      - destruct (dry c); [|reflexivity]. rewrite orb_true_r in H'. discriminate. }
+  - assert (T : negb (qcode_eqb (qcode p) QERROR) || dry c = false -> qcode p = QERROR /\ dry c = false).
+    { intros H'. apply orb_false_iff in H'. destruct H' as [H1 H2]. split; auto.
+      destruct (qcode p); cbn in H1; try discriminate; reflexivity. }
     cbn [is_submit_or_gen].
-    destruct kd, res as [j|]; in_cks H; auto; exfalso; destruct Hk as [->|[->|->]]; discriminate.
+    destruct kd, res as [j|]; in_cks H; auto.
+    all: try (exfalso; destruct Hk as [-> | [-> | ->]]; discriminate).
+    all: match goal with E : _ || _ = false |- _ => destruct (T E) end; auto.
 Qed.
 
 (** end of poll: 203 iff the status contradicts the query code; 202 iff rows changed after a failed query *)
@@ -882,7 +882,7 @@ Lemma flags_end_c20 c g p b rows stat k : c20_code k -> In k (flags_end c g p b 
   (k = 202 /\ qcode_eqb (qcode p) QERROR && negb (dry c) = true /\ list_eqb row_eqb rows (prev b) = false).
 Proof.
   intros Hk H. unfold flags_end in H. cbv zeta in H.
-  in_cks H; try (exfalso; destruct Hk as [->|[->|->]]; discriminate).
+  in_cks H; try (exfalso; destruct Hk as [-> | [-> | ->]]; discriminate).
   - left. auto.
   - right. match goal with E : negb _ || _ = false |- _ => apply orb_false_iff in E; destruct E as [E1 E2] end.
     apply negb_false_iff in E1. auto.
